@@ -133,6 +133,12 @@ RealRuleSets ==
                            !.trans = <<[kind |-> "days", n |-> 1, class |-> "GLACIER"]>>]>>,
    <<[AllF EXCEPT !.gt = 10] @@ [NoAct EXCEPT !.nve = [days |-> 1, keep |-> 1]]>>}
 
+\* store probes: the driver itself replays "list, replace, guarded call" on the REAL
+\* store so that TLC can compare the real store's answer with the model store
+\* (Apply) that the scripted store is checked against
+Probes == {[ver |-> v, same |-> s, op |-> o] :
+           v \in {"Unversioned", "Enabled"}, s \in BOOLEAN, o \in {"DeleteObject", "Transition"}}
+
 \* ------------------------------------------------------------ emission
 Components ==
   UNION {{[kind |-> "hist", ver |-> v, n |-> n, h |-> h] : h \in Histories(v, n)} :
@@ -143,6 +149,7 @@ Components ==
   \cup {[kind |-> "race", race |-> r] : r \in Races}
   \cup {[kind |-> "prog", prog |-> p] : p \in Programs}
   \cup {[kind |-> "rrules", rules |-> r] : r \in RealRuleSets}
+  \cup {[kind |-> "probe", probe |-> pr] : pr \in Probes}
 
 Frozen == /\ store = 0 /\ rules = 0 /\ now = 0 /\ pc = 0 /\ snap = 0 /\ acts = 0
           /\ nuid = 0 /\ races = 0 /\ rounds = 0 /\ touched = 0
